@@ -25,6 +25,7 @@ type Layout struct {
 	ExtraVideo string // id of a second video representation (same content), "" = none
 	VideoID    string
 	TimeOffset uint64 // first video tfdt (media time of the first VoD segment)
+	Shift      []int  // Shift[i]: the boundary after video segment i is moved by this many ticks (last frame longer, next first frame shorter)
 }
 
 type srcTrack struct {
@@ -124,9 +125,15 @@ func Generate(root, src string, l Layout) error {
 				s := video.samples[k%len(video.samples)]
 				k++
 				s.Dur = l.FrameDur
+				if j == nf-1 && si < len(l.Shift) {
+					s.Dur = uint32(int(l.FrameDur) + l.Shift[si])
+				}
+				if j == 0 && si > 0 && si-1 < len(l.Shift) {
+					s.Dur = uint32(int(l.FrameDur) - l.Shift[si-1])
+				}
 				s.CompositionTimeOffset = 0
 				s.DecodeTime = t
-				t += uint64(l.FrameDur)
+				t += uint64(s.Dur)
 				ss = append(ss, s)
 			}
 			name := fmt.Sprintf("%d.m4s", l.StartNr+si)
@@ -261,8 +268,16 @@ func Layouts(quick bool) []Layout {
 		// single segment, startNumber 5, two video representations with overlapping ids
 		{Name: "g_single_snr5", VideoTS: 90000, FrameDur: 3000, SegFrames: []int{60}, AudioSegs: []int{94}, StartNr: 5, ExtraVideo: "HV300"},
 	}
+	ls = append(ls,
+		// a video boundary (180481 = 1920*94+1 ticks) whose conversion to 48 kHz is inexact with an integer part on the AAC frame grid
+		Layout{Name: "g_inexact_audio_boundary", VideoTS: 90000, FrameDur: 3000, SegFrames: []int{60, 60, 60, 60}, AudioSegs: []int{94, 94, 94, 93}, Shift: []int{481}},
+		// audio VoD grid coarser than the video grid: one 8 s audio segment for 4 x 2 s video segments
+		Layout{Name: "g_audio_one_seg", VideoTS: 90000, FrameDur: 3000, SegFrames: []int{60, 60, 60, 60}, AudioSegs: []int{375}},
+	)
 	if !quick {
 		ls = append(ls,
+			// audio VoD grid finer than the video grid
+			Layout{Name: "g_audio_fine_grid", VideoTS: 90000, FrameDur: 3000, SegFrames: []int{120, 120}, AudioSegs: []int{47, 47, 47, 47, 47, 47, 47, 46}},
 			Layout{Name: "g_sub_second", VideoTS: 15360, FrameDur: 512, SegFrames: []int{15, 15, 15}, AudioSegs: []int{24, 23, 24}},
 			Layout{Name: "g_alt_short_long", VideoTS: 12800, FrameDur: 512, SegFrames: []int{25, 75, 25, 75, 25}, AudioSegs: []int{47, 141, 47, 141, 46}, Text: true},
 			Layout{Name: "g_7seg_ms", VideoTS: 1000, FrameDur: 40, SegFrames: []int{24, 24, 24, 24, 24, 24, 24}, AudioSegs: []int{45, 45, 45, 45, 45, 45, 45}, Text: true, UseTime: true},
